@@ -42,6 +42,16 @@ fn debug_sets(s: &CronSchedule) -> Option<Sets> {
 
 /// Drain the iterator over a window that contains every value of field k, project on the field.
 fn observe_field(schedule: &CronSchedule, k: usize) -> Out<BTreeSet<u8>> {
+    observe_field_with(schedule, k, false)
+}
+
+/// the same projection, but with the clock moved after every call to 30 s before the next unit of
+/// the field (next minute / hour / day): the denoted set cannot depend on how the clock advances
+fn observe_field_moving(schedule: &CronSchedule, k: usize) -> Out<BTreeSet<u8>> {
+    observe_field_with(schedule, k, true)
+}
+
+fn observe_field_with(schedule: &CronSchedule, k: usize, moving: bool) -> Out<BTreeSet<u8>> {
     let (start, end) = match k {
         0 => (unix_of(2021, 12, 31, 23, 59, 30), unix_of(2022, 1, 1, 1, 0, 0)),
         1 => (unix_of(2021, 12, 31, 23, 59, 30), unix_of(2022, 1, 2, 0, 0, 0)),
@@ -60,6 +70,9 @@ fn observe_field(schedule: &CronSchedule, k: usize) -> Out<BTreeSet<u8>> {
             };
             if ts >= end {
                 break;
+            }
+            if moving {
+                pin_clock(ts + [60, 3_600, 86_400, 86_400, 86_400][k] - 30);
             }
             let day = ts.div_euclid(86_400) + cal::DAYS_TO_1970;
             let sod = ts.rem_euclid(86_400);
@@ -107,6 +120,11 @@ fn case_grammar(k: usize, field: &str, acc: &mut Acc) {
             if got != Out::Val(want[k].clone()) {
                 let cls = if field.contains('7') && k == 4 { "weekday-7" } else if field.contains('/') { "step" } else if field.contains('-') { "range" } else if field.contains(',') { "list" } else { "single" };
                 acc.violation("CronSchedule iterator", &format!("denoted-set-{}-{}", fname, cls), case(), format!("{:?}", want[k]), got.show());
+            }
+            let moved = observe_field_moving(&s, k);
+            acc.transitions += want[k].len() as u64 + 1;
+            if moved != Out::Val(want[k].clone()) {
+                acc.violation("CronSchedule iterator", &format!("denoted-set-under-a-moving-clock-{}", fname), case(), format!("{:?}", want[k]), moved.show());
             }
             acc.branch("grammar-accepted");
             if want[k].len() as u8 != [60u8, 24, 31, 12, 7][k] {
